@@ -263,6 +263,14 @@ SITE_TEMPLATES = {
     'reg-rs1': ('lw x8, x{v}, 4', 'lw x8, K, 4'),
     'reg-rs2': ('add x9, x9, x{v}', 'add x9, x9, K'),
     'reg-c': ('c.mv x8, x{v}', 'c.mv x8, K'),
+    # register aliases as operands of pseudo-instructions (resolved only after the expansion)
+    'reg-mv-rd': ('mv x{v}, x10', 'mv K, x10'),
+    'reg-mv-rs': ('mv x10, x{v}', 'mv x10, K'),
+    'reg-li': ('li x{v}, 5', 'li K, 5'),
+    'reg-neg': ('neg x{v}, x{v}', 'neg K, K'),
+    'reg-jr': ('jr x{v}', 'jr K'),
+    'reg-beqz': ('T:\nbeqz x{v}, T', 'T:\nbeqz K, T'),
+    'reg-seqz': ('seqz x9, x{v}', 'seqz x9, K'),
 }
 
 
@@ -558,7 +566,7 @@ def c14(run, scratch):
                     run.violation(clause, {'depth': sc['depth'], 'decoy': sc['decoy'], 'cwd_is_proj': sc['cwd'] == 'proj'}, {'scenario': sc, 'what': what})
                 # cwd independence across scenarios that differ only in cwd / rel / decoy-free
                 if sc['decoy'] == 'none':
-                    key = (sc['depth'], sc['pos'], sc['l1'], sc['l2'], sc['l3'], sc['quoted'])
+                    key = (sc['depth'], sc['pos'], sc['l1'], sc['l2'], sc['l3'], sc['quoted'], sc['again'])
                     by_out.setdefault(key, set()).add(res['out'])
     for key, outs in by_out.items():
         if len(outs) > 1:
